@@ -1,83 +1,38 @@
-(* C41 (recursion clause): the search that decides whether calling a macro would make it call itself.
-   Model of MacroNode.macro_calling_macro (openpectus/lang/model/ast.py) over the macro table: for every macro name the
-   names its body calls, in source order, nested blocks / watches / alarms included, nested macro definitions excluded. *)
+(* C41: macros run the most recently defined body and never recurse.
+   Correspondence interface and monitors. The recursion search itself is model/MacroSearch.v (the interpreter model
+   model/Interp.v calls it); the third stream runs methods with macro definitions, redefinitions between calls and calls
+   on the interpreter model and on the real PInterpreter (model/InterpRun.v). *)
 From Coq Require Import ZArith List Bool Arith.
 From OP Require Import lib.Obs.
+From OP Require Export model.MacroSearch.
+From OP Require Import model.Interp model.InterpRun.
 Import ListNotations.
-
-Definition tbl := list (nat * list nat).
-Fixpoint lookup (t : tbl) (n : nat) : option (list nat) :=
-  match t with [] => None | (k, b) :: t' => if Nat.eqb k n then Some b else lookup t' n end.
-Definition memn (x : nat) (l : list nat) : bool := existsb (Nat.eqb x) l.
-
-(* search fuel t target visited body = Some (path, visited'): the chain of names called, ending with target, or [] ;
-   None: out of fuel (never happens with fuel > number of macros) *)
-Fixpoint search (fuel : nat) (t : tbl) (target : nat) (vis : list nat) (body : list nat) {struct fuel}
-  : option (list nat * list nat) :=
-  match fuel with
-  | O => None
-  | S f =>
-      (fix go (vis : list nat) (body : list nat) {struct body} : option (list nat * list nat) :=
-         match body with
-         | [] => Some ([], vis)
-         | c :: rest =>
-             if Nat.eqb c target then Some ([c], vis)
-             else match lookup t c with
-                  | Some b =>
-                      if memn c vis then go vis rest
-                      else match search f t target (c :: vis) b with
-                           | None => None
-                           | Some ([], vis1) => go vis1 rest
-                           | Some (p, vis1) => Some (c :: p, vis1)
-                           end
-                  | None => go vis rest
-                  end
-         end) vis body
-  end.
-
-(* the call of macro m is refused iff the search from its body finds m (the interpreter and the analyzer both test
-   `cascade and name in cascade`; a non-empty result always ends with the name) *)
-Definition refused (t : tbl) (m : nat) : bool :=
-  match lookup t m with
-  | Some b => match search (S (length t)) t m [] b with Some ([], _) => false | _ => true end
-  | None => false
-  end.
-
-(* ---------- what running the calls does ---------- *)
-(* executing a call of macro m fails when m is undefined, when the recursion check refuses it, or when one of the calls
-   its body executes fails (bodies without conditions: every call in the body is executed, in order) *)
-Fixpoint call_fails (depth : nat) (t : tbl) (m : nat) : bool :=
-  match lookup t m with
-  | None => true
-  | Some b =>
-      refused t m
-      || match depth with
-         | O => false
-         | S d => existsb (call_fails d t) b
-         end
-  end.
 
 (* ---------- correspondence interface ---------- *)
 Inductive input :=
 | IFun (t : tbl) (queries : list nat)          (* macro_calling_macro(macros) for each queried macro *)
-| IRun (t : tbl) (calls : list nat).            (* a method: the definitions, then these top-level calls, then a final Mark *)
+| IRun (t : tbl) (calls : list nat)             (* a method: the definitions, then these top-level calls, then a final Mark *)
+| IInterp (i : InterpRun.input).                (* a method with macros, tick by tick on the interpreter model *)
 Inductive output :=
 | OFun (paths : list (list nat))
-| ORun (error : bool) (ended : bool).           (* Method Status Error seen; the final Mark was reached *)
+| ORun (error : bool) (ended : bool)            (* Method Status Error seen; the final Mark was reached *)
+| OInterp (vs : InterpRun.output).
 
 Definition run (i : input) : output :=
   match i with
   | IFun t qs =>
       OFun (map (fun m => match lookup t m with
-                          | Some b => match search (S (length t)) t m [] b with Some (p, _) => p | None => [] end
+                          | Some b => match search (Datatypes.S (length t)) t m [] b with Some (p, _) => p | None => [] end
                           | None => []
                           end) qs)
   | IRun t calls => let e := existsb (call_fails (length t) t) calls in ORun e (negb e)
+  | IInterp i => OInterp (InterpRun.run i)
   end.
 Definition out_eqb (a b : output) : bool :=
   match a, b with
   | OFun x, OFun y => list_eqb (list_eqb Nat.eqb) x y
   | ORun e1 d1, ORun e2 d2 => Bool.eqb e1 e2 && Bool.eqb d1 d2
+  | OInterp x, OInterp y => InterpRun.out_eqb x y
   | _, _ => false
   end.
 
@@ -87,14 +42,57 @@ Definition out_eqb (a b : output) : bool :=
 Fixpoint reach_b (depth : nat) (t : tbl) (target : nat) (body : list nat) : bool :=
   match depth with
   | O => memn target body
-  | S d => memn target body
+  | Datatypes.S d => memn target body
            || existsb (fun c => match lookup t c with Some b => reach_b d t target b | None => false end) body
   end.
 Fixpoint fails_b (depth : nat) (t : tbl) (m : nat) : bool :=
   match lookup t m with
   | None => true
-  | Some b => reach_b (length t) t m b || match depth with O => false | S d => existsb (fails_b d t) b end
+  | Some b => reach_b (length t) t m b || match depth with O => false | Datatypes.S d => existsb (fails_b d t) b end
   end.
+
+(* ---- the interpreter stream: the body a call runs is the most recently defined one; a call of a name nothing has
+   defined fails. Read off the real node states after every tick:
+     defined v m    : the definition line m has been visited (is_registered, or started / completed as a line)
+     the registry   : rebuilt here from the order in which definitions become defined (later replaces earlier)
+     a call started : the macro node's run_started_count went up in this tick *)
+Section Mon.
+  Variable p : program.
+  Definition vst (v : view) (n : nat) : ns := nth n (v_nodes v) ns0.
+  Definition macro_nodes : list (nat * nat) :=                    (* (node, name) *)
+    flat_map (fun n => match n_kind (nd p n) with KMacro nm => [(n, nm)] | _ => [] end) (seq 0 (length p)).
+  Definition call_nodes : list (nat * nat) :=
+    flat_map (fun n => match n_kind (nd p n) with KCallMacro nm => [(n, nm)] | _ => [] end) (seq 0 (length p)).
+  Definition defined (v : view) (m : nat) : bool :=
+    interrupt_registered (vst v m) || started (vst v m) || completed (vst v m).
+  Definition newly_defined (u : option view) (v : view) : list (nat * nat) :=
+    filter (fun mn => defined v (fst mn) && negb (match u with Some u' => defined u' (fst mn) | None => false end)) macro_nodes.
+  Definition reg_put (reg : list (nat * nat)) (mn : nat * nat) : list (nat * nat) :=      (* (name, node) *)
+    (snd mn, fst mn) :: filter (fun e => negb (Nat.eqb (fst e) (snd mn))) reg.
+  Definition reg_get (reg : list (nat * nat)) (nm : nat) : option nat :=
+    match find (fun e => Nat.eqb (fst e) nm) reg with Some e => Some (snd e) | None => None end.
+  Definition latest_ok (u : option view) (v : view) (reg : list (nat * nat)) : bool :=
+    let fresh := newly_defined u v in
+    forallb (fun mn => let '(m, nm) := mn in
+                       let before := match u with Some u' => run_count (vst u' m) | None => 0%nat end in
+                       negb (Nat.ltb before (run_count (vst v m)))
+                       || option_eqb Nat.eqb (reg_get reg nm) (Some m)
+                       || existsb (fun f => Nat.eqb (fst f) m) fresh) macro_nodes.
+  (* a call of a name no visited definition carries never completes; its concrete visit begins one tick after the line
+     is marked started and fails there (unless that tick raised before reaching it) *)
+  Definition undefined_ok (u : option view) (v : view) : bool :=
+    forallb (fun cn => let '(c, nm) := cn in
+                       existsb (fun mn => Nat.eqb (snd mn) nm && defined v (fst mn)) macro_nodes
+                       || failed (vst v c)
+                       || (negb (completed (vst v c))
+                           && (v_raised v || negb (started (vst v c))
+                               || negb (match u with Some u' => started (vst u' c) | None => false end)))) call_nodes.
+  Fixpoint interp_walk (u : option view) (reg : list (nat * nat)) (vs : list view) : bool :=
+    match vs with
+    | [] => true
+    | v :: vs' => latest_ok u v reg && undefined_ok u v && interp_walk (Some v) (fold_left reg_put (newly_defined u v) reg) vs'
+    end.
+End Mon.
 Definition holds_b (i : input) (o : output) : bool :=
   match i, o with
   | IFun t qs, OFun ps =>
@@ -104,5 +102,6 @@ Definition holds_b (i : input) (o : output) : bool :=
       && forallb (fun mp => match snd mp with [] => true | p => Nat.eqb (last p 0%nat) (fst mp) end) (combine qs ps)
   | IRun t calls, ORun e d =>
       Bool.eqb e (existsb (fails_b (length t) t) calls) && Bool.eqb d (negb e)
+  | IInterp i, OInterp vs => interp_walk (fst i) None [] vs
   | _, _ => false
   end.
